@@ -476,7 +476,7 @@ class ReadZipFS(FS):
     def openbin(self, path, mode="r", buffering=-1, **kwargs):
         # type: (Text, Text, int, **Any) -> BinaryIO
         self.check()
-        if "w" in mode or "+" in mode or "a" in mode:
+        if "w" in mode or "+" in mode or "a" in mode or "x" in mode:
             raise errors.ResourceReadOnly(path)
 
         if not self._directory.exists(path):
